@@ -395,8 +395,10 @@ def _c01():
         leg("deque-grow", "c01_deque", (3, 4), {"owner": "SSG", "prefill": 63, "presteal": 1, "thieves": 1, "steals": 2}, what="spawn grows (relocates) the pool while a thief is active"),
         leg("deque-empty", "c01_deque", (3, 4), {"owner": "GSG", "prefill": 1, "thieves": 1, "steals": 2}, what="pop of the last task vs steal, then respawn"),
     ]
-    L.append(leg("deque-seq6", "c01_deqseq", (0, 0), {"depth": 6}, flags=(), what="single thread, every sequence of length 1..6 over {spawn with isolation tag 0/1/2, get_task with isolation 0/1/2, steal_task with isolation 0/1} on one real arena_slot: skipped tasks, holes, restored bounds; nothing lost / handed out twice / handed to a non-matching taker, nothing refused while a matching task is in the pool", tiers=("quick",)))
-    L.append(leg("deque-seq7", "c01_deqseq", (0, 0), {"depth": 7}, flags=(), what="same, every sequence of length 1..7", tiers=("thorough",), weight=2.0))
+    L.append(leg("deque-seq7q", "c01_deqseq", (0, 0), {"depth": 7}, flags=(), what="single thread, every sequence of length 1..7 over {spawn with isolation tag 0/1/2, get_task with isolation 0/1/2, steal_task with isolation 0/1} on one real arena_slot: skipped tasks, holes, restored bounds; nothing lost / handed out twice / handed to a non-matching taker, nothing refused while a matching task is in the pool", tiers=("quick",)))
+    L.append(leg("deque-seq8", "c01_deqseq", (0, 0), {"depth": 8}, flags=(), what="same, every sequence of length 1..8", tiers=("thorough",), weight=2.0))
+    L.append(leg("deque-seq6-proxies", "c01_deqseq", (0, 0), {"depth": 6, "proxies": 1}, flags=(), what="same with affinity proxies: every sequence of length 1..6 over the 8 operations plus {spawn a mailed proxy with tag 0 / 1, the mailbox side claims the oldest mailed proxy}: a proxy is claimed from exactly one side, an emptied proxy is freed once and never read again after its memory was reused", tiers=("quick",)))
+    L.append(leg("deque-seq8-proxies", "c01_deqseq", (0, 0), {"depth": 8, "proxies": 1}, flags=(), what="same, every sequence of length 1..8 over the 11 operations", tiers=("thorough",), weight=6.0))
     L.append(leg("deque-seq6-pre", "c01_deqseq", (0, 0), {"depth": 6, "pre": 6}, flags=(), what="same sequences on a pool that already holds three untagged tasks and has an advanced head"))
     for name, prm in [("tie", {"owner": "SG", "thieves": 2, "steals": 1}), ("basic", {"owner": "SSGSGG", "thieves": 1, "steals": 2}), ("compact", {"owner": "SSSSSSG", "prefill": 60, "presteal": 50, "thieves": 1, "steals": 2}),
                       ("grow", {"owner": "SSG", "prefill": 63, "presteal": 1, "thieves": 1, "steals": 2}), ("empty", {"owner": "GSG", "prefill": 1, "thieves": 1, "steals": 2})]:
